@@ -42,6 +42,8 @@ FIXED = [
  ("C18", "F32-flag-before-subcommand", "written before the sub-command takes effect", "`lace -f stack run s.asm` (also check / compile / debug, and `run img.lc3`) parsed and validated the flag, then ignored it: the extension source was rejected naming the feature although the flag was given"),
  ("C20", "F33-blank-history-line", "blank lines in the debugger", "history file `reg`, `   `, ``, `print r1` (hand-edited), keys Up Enter Up Up Enter ...: Enter on a recalled blank line submitted it - read_line's debug_assert panicked (status 101) in debug builds, release builds handed an empty command to the parser"),
  ("C09", "F34-instruction-counter", "count of instructions since the last prompt is 64 bits", "a terminating program that executes 2^32 instructions under one `continue` (nested countdown, outer count x8001) ended with a panic (`attempt to add with overflow`, status 101, after 8.5 min) under `lace debug` in the debug profile; plain `lace run` exits 0"),
+ ("C06", "F35-extension-not-utf8", "extension is not valid UTF-8", "`lace run $'prog.lc3\\377'` (also `prog.\\377`, through `run`, the bare form and `debug`) panicked at `ext.to_str().unwrap()` (status 101) instead of the 'unknown extension' error exit"),
+ ("C08", "F36-stdout-closes", "a progress message that cannot be written", "`lace compile p.asm out.lc3 | head -n 1` (the reader of stdout gone after the first line; made deterministic with a FIFO source): the object file was written completely and then `println!` panicked on EPIPE - exit 101 with the destination replaced / created"),
  ("C20", "F27-ctrl-right-trailing-spaces", "Ctrl+Right from a word followed only by spaces", "keys a, space, space, Ctrl+Left, Ctrl+Right, +, Enter submitted `a+  ` instead of `a  +` (cursor stopped after the word instead of the end of line)"),
 ]
 KNOWN = [
